@@ -315,7 +315,8 @@ def run(tier):
     # ---- (5) TLC validates the log ---------------------------------------------------------------
     simset = set(sim_names)
     runset = {n for n, _, t in progs if (gen.runnable(t) if t is not None else n in gen.HAND_RUNNABLE)}
-    term_rows = [{"e": "term", "id": n, "hand": t is None, "expect": e if t is None else "", "term": t or [],
+    term_rows = [{"e": "term", "id": n, "hand": t is None, "expect": e if t is None else "",
+                  "term": t if t is not None else gen.HAND_TERMS[n],
                   "builders": ["prod"] + (["sim"] if n in simset else []) + (["run"] if n in runset else [])}
                  for n, e, t in progs]
     listed = {n for n, _, _ in progs}
